@@ -15,7 +15,7 @@ import (
 func init() { Registry["C08"] = C08 }
 
 var c08Paths = []string{"print", "assign", "concat", "compare", "argument", "return", "slice-store-literal", "slice-store-assign", "range", "subscript", "len", "write-read"}
-var c08Origins = []string{"literal", "file", "stdin", "command"}
+var c08Origins = []string{"literal", "file", "stdin", "command", "stdin-in-function"}
 var c08Positions = []string{"only", "first", "middle", "last"}
 
 func c08Value(c byte, pos string) string {
@@ -51,6 +51,12 @@ func c08Program(v, path, origin string) (src string, stdin string, pre map[strin
 		}
 		stdin = v + "\n"
 		b.WriteString("v := input()\n")
+	case "stdin-in-function":
+		if strings.Contains(v, "\n") {
+			return "", "", nil, "", nil, false
+		}
+		stdin = v + "\n"
+		b.WriteString("func ask() string {\n\tline := input()\n\treturn line\n}\nv := ask()\n")
 	case "command":
 		pre["in.txt"] = v + "\n"
 		b.WriteString("v, ce, cc := @cat(\"in.txt\")\n")
